@@ -594,6 +594,8 @@ Proof.
   - intros [= <- _]; auto.
   - intros [= <- _]; auto.
   - destruct (eval_literal (lit m2)); [|discriminate]. intros [= <- _]; auto.
+  - destruct (eval_literal (lit m2)); [|discriminate]. intros [= <- _]; auto.
+  - destruct (eval_literals ls); [|discriminate]. intros [= <- _]; auto.
 Qed.
 
 Lemma steps_wf ops : forall st fin ts, steps_model st ops = Some (fin, ts) -> wf_state st -> wf_state fin.
